@@ -95,6 +95,16 @@ CHECKS = {
         "D11 (bra/ket orientation).",
         "DESIGN.md 6/C04",
     ),
+    "C14": (
+        "property-based differential testing: generated systems and thresholds bracketing generated point-nucleus "
+        "distances vs Z/d sums and McMurchie-Davidson integrals; transformation pull-back law",
+        "Generated-input search: nuclei of either sign and |Z| 0.1-100, points on nuclei, thresholds at 0, (1+-1e-6)d, "
+        "between and beyond distances, square and rectangular transformations; value compared at 1e-8 of "
+        "sum|Z/d| + sum|gamma| sqrt(V_aa V_bb); +-inf expected on a nucleus at threshold 0.",
+        "Trusts vf/ref R2; points whose distance is within 1e-9 (relative) of the threshold are not judged. Found and "
+        "repaired D2 (mask on Z/d) and D3 (rectangular transform rejected).",
+        "DESIGN.md 6/C14",
+    ),
 }
 
 NOT_YET = "check not built yet in this revision (planned, see DESIGN.md section 6)"
